@@ -109,6 +109,49 @@ def rewind_rule(chk, P, prefix):
     chk.ob("%s:EventBatch::rewind" % prefix, "a rewound batch is the whole batch again: cursor 0, byte count recomputed, buffers kept by advance()", rewind)
 
 
+def std_adapter_rule(chk, P, prefix):
+    """The leaf adapters over std::fs do what their names say: each method of `impl Filesystem for StdFilesystem`, `impl File for StdFile`
+    and `impl Write for StdFile` reaches the std operation of the table below on the right receiver (the wrapped file / the path
+    parameter) and returns its result.  The worker's accounting (size limit on reuse, durability) rests on them."""
+    TABLE = [
+        # (trait, self type, method, required std callee names (all), forbidden callee names)
+        ("emit_file::Filesystem", "emit_file::StdFilesystem", "create_dir_all", ["create_dir_all"], []),
+        ("emit_file::Filesystem", "emit_file::StdFilesystem", "read_dir_files", ["read_dir"], []),
+        ("emit_file::Filesystem", "emit_file::StdFilesystem", "remove_file", ["remove_file"], ["remove_dir_all", "remove_dir"]),
+        ("emit_file::File", "emit_file::StdFile", "len", ["metadata", "len"], ["stream_position", "seek", "rewind"]),
+        ("emit_file::File", "emit_file::StdFile", "sync_all", ["sync_all"], ["sync_data", "flush"]),
+        ("std::io::Write", "emit_file::StdFile", "write", ["write"], ["write_all"]),
+        ("std::io::Write", "emit_file::StdFile", "flush", ["flush"], []),
+    ]
+
+    def f():
+        ev = []
+        for tr, ty, meth, need, deny in TABLE:
+            b = P.impl_method(tr, ty, meth)
+            cs = [c for x in [b] + P.closures_of(b) for c in x.calls(normal_only=True)]
+            names = [c.callee.get("name") for c in cs if (c.callee.get("path") or "").startswith(("std::", "core::", "alloc::")) or
+                     (c.callee.get("full") or "").startswith("<std::")]
+            for nd in need:
+                if nd not in names:
+                    return False, ("<%s as %s>::%s does not go through std's %s (calls: %s): %s" % (
+                        ty.rsplit("::", 1)[-1], tr.rsplit("::", 1)[-1], meth, nd, sorted(set(n for n in names if n)),
+                        "the size of a file re-opened for appending would be read as something else (an append-mode handle starts at position 0), so the "
+                        "size limit is not applied to reused files" if meth == "len" else "the adapter no longer performs the operation the worker relies on")), [], b.span
+            for dn in deny:
+                if dn in names:
+                    return False, "<%s as %s>::%s calls %s" % (ty.rsplit("::", 1)[-1], tr.rsplit("::", 1)[-1], meth, dn), [], b.span
+            # the operation is applied to the wrapped file / the path parameter, and its result is what is returned
+            key = [c for c in cs if c.callee.get("name") == need[0]][0]
+            if not key.args:
+                return False, "%s::%s: %s takes no receiver" % (ty, meth, need[0]), [], key.loc
+            recv = mir.o_root(key.body.origin(key.args[0], through_calls=("deref", "deref_mut", "as_ref", "as_mut", "borrow")))
+            if not (recv[0] == "param" and recv[1] in (1, 2)):
+                return False, "%s::%s applies %s to %s, not to its own file / path" % (ty, meth, need[0], mir.o_str(recv)), [], key.loc
+            ev.append("%s::%s -> %s" % (ty.rsplit("::", 1)[-1], meth, "+".join(need)))
+        return True, "", ev
+    chk.ob("%s:std-adapters" % prefix, "the std::fs adapters perform the like-named std operation on their own file / path", f)
+
+
 def sync_before_ok(P):
     cb = main_closure(P)
     oks = [(bb, s) for bb, j, s in cb.statements(normal_only=True)
@@ -430,6 +473,9 @@ def run(chk):
         (r"^emit_file::ActiveFile::write_event$", "assert:overflow:Add"): (2, "file size accounting; a file cannot exceed usize bytes before the size limit rolls it"),
     }, "the record writer and batch cursor have no unaccounted panic-capable site")
     common.arg_agreement_rule(chk, P, "C10", [("emit_file", None)], 5)
+    std_adapter_rule(chk, P, "C10.R5")
+    common.config_wiring_rule(chk, P, "C10.R6:configuration-reaches-worker", "the configured separator and writer reach the worker and the emitter unchanged",
+                              ["emit_file::FileSetBuilder::spawn_inner"], 6)
     common.results_inspected_rule(
         chk, P, "C10.R9:results-inspected", "no filesystem or formatting failure in the file emitter is silently dropped",
         lambda b: b.crate == "emit_file" and "/tests" not in b.file and "::tests::" not in b.key,
